@@ -688,10 +688,20 @@ MUTANTS = [
     {"name": "physics-definition-removed", "file": PHYS_C, "old": "double GetCharactWavelength(", "new": "double GetCharacteristicWavelength(", "rules": ["R2"]},
     {"name": "fex-derived-loop-over-params-list", "file": FEX, "old": "    {% set components = network.reactions + network.grains + network.heating + network.cooling -%}\n    {% for key, value in components | collect_variable_items(\"deriveds\") -%}\n        realtype {{ key }} = {{ value }};\n    {% endfor %}\n\n#if (NHEATPROCS || NCOOLPROCS)\n    if (mu < 0) mu = GetMu(y);",
      "new": "    {% set components = network.reactions + network.grains -%}\n    {% for key, value in components | collect_variable_items(\"deriveds\") -%}\n        realtype {{ key }} = {{ value }};\n    {% endfor %}\n\n#if (NHEATPROCS || NCOOLPROCS)\n    if (mu < 0) mu = GetMu(y);", "rules": ["R5"]},
+    {"name": "collect-chain-skips-first-component", "file": UTIL, "old": '    variables = OrderedDict()\n    for comp in complist:\n        var_dict = getattr(comp, var_type)\n        for key, value in var_dict.items():\n            variables[key] = value\n    return variables.items()\n', "new": "    import itertools\n    merged = OrderedDict(itertools.chain.from_iterable(getattr(comp, var_type).items() for comp in complist[1:]))\n    return merged.items()\n", "rules": ["R5"]},
+    {"name": "collect-comprehension-filtered", "file": UTIL, "old": '    variables = OrderedDict()\n    for comp in complist:\n        var_dict = getattr(comp, var_type)\n        for key, value in var_dict.items():\n            variables[key] = value\n    return variables.items()\n', "new": "    return {key: value for comp in complist if comp for key, value in getattr(comp, var_type).items()}.items()\n", "rules": ["R5"]},
+    {"name": "register-table-row-dropped", "edits": [
+        {"file": RR, "old": '        self.register("photon_desorption_option", (f"opt_uvd{group}", 1.0, vt.param))\n        self.register("H2_desorption_option", (f"opt_h2d{group}", 1.0, vt.param))\n', "new": '        for name, stem, default in self._switches:\n            self.register(name, (f"{stem}{group}", default, vt.param))\n'},
+        {"file": RR, "old": '    model = "rr07"\n', "new": '    model = "rr07"\n    _switches = (("photon_desorption_option", "opt_uvd", 1.0),)\n'}], "rules": ["R1"]},
 ]
 BENIGN = [
     {"name": "component-list-variable-renamed", "file": RATES, "old": "components", "new": "providers", "count": 12},
     {"name": "component-list-inlined", "file": RATES, "old": "    {% set components = network.reactions + network.grains -%}\n    {% for key, _ in components | collect_variable_items(\"params\") -%}", "new": "    {% for key, _ in (network.reactions + network.grains) | collect_variable_items(\"params\") -%}"},
     {"name": "leeds-register-in-both-arms", "file": "naunet/reactions/leedsreaction.py", "old": '        self.register("radiation_field", ("G0", 1.0, vt.param))\n', "new": '        if self.rtype == 4:\n            self.register("radiation_field", ("G0", 1.0, vt.param))\n        else:\n            self.register("radiation_field", ("G0", 1.0, vt.param))\n'},
     {"name": "unrelated-registers-reordered", "file": HH, "old": '        self.register("habing_field_photon_number", ("habing", 1e8, vt.constant))\n        self.register("cosmic_ray_induced_photon_number", ("crphot", 1e4, vt.constant))\n', "new": '        self.register("cosmic_ray_induced_photon_number", ("crphot", 1e4, vt.constant))\n        self.register("habing_field_photon_number", ("habing", 1e8, vt.constant))\n'},
+    {"name": "collect-as-chained-items", "file": UTIL, "old": '    variables = OrderedDict()\n    for comp in complist:\n        var_dict = getattr(comp, var_type)\n        for key, value in var_dict.items():\n            variables[key] = value\n    return variables.items()\n', "new": "    import itertools\n    per_component = (getattr(comp, var_type).items() for comp in complist)\n    merged = OrderedDict(itertools.chain.from_iterable(per_component))\n    return merged.items()\n"},
+    {"name": "collect-as-dict-comprehension", "file": UTIL, "old": '    variables = OrderedDict()\n    for comp in complist:\n        var_dict = getattr(comp, var_type)\n        for key, value in var_dict.items():\n            variables[key] = value\n    return variables.items()\n', "new": "    return {key: value for comp in complist for key, value in getattr(comp, var_type).items()}.items()\n"},
+    {"name": "registrations-from-class-level-table", "edits": [
+        {"file": RR, "old": '        self.register("photon_desorption_option", (f"opt_uvd{group}", 1.0, vt.param))\n        self.register("H2_desorption_option", (f"opt_h2d{group}", 1.0, vt.param))\n', "new": '        for name, stem, default in self._switches:\n            self.register(name, (f"{stem}{group}", default, vt.param))\n'},
+        {"file": RR, "old": '    model = "rr07"\n', "new": '    model = "rr07"\n    _switches = (("photon_desorption_option", "opt_uvd", 1.0), ("H2_desorption_option", "opt_h2d", 1.0))\n'}]},
 ]
